@@ -1739,6 +1739,24 @@ class Inliner:
                             # a read-only property introduced later (no setter can exist under a brand-new name
                             # without a second definition, which the duplicate test below excludes)
                             self.props.setdefault(m.name, []).append((st.name, m))
+        # a method name that another class of the toolkit (this module or a sibling) defines as well may be dispatched to
+        # either definition (an overriding hook in a subclass): such a call is not the helper's body
+        if path:
+            d_ = os.path.dirname(path)
+            try:
+                sib_ = sorted(f for f in os.listdir(d_) if f.endswith(".py") and os.path.join(d_, f) != path and not f.startswith("test_"))
+            except OSError:
+                sib_ = []
+            elsewhere = set()
+            for f in sib_:
+                t2 = _parsed_file(os.path.join(d_, f))
+                if t2 is None:
+                    continue
+                for cls_ in [x for x in ast.walk(t2) if isinstance(x, ast.ClassDef)]:
+                    elsewhere |= {m_.name for m_ in cls_.body if isinstance(m_, ast.FunctionDef)}
+            for k_ in list(self.methods):
+                if k_ in elsewhere or len(self.methods[k_]) > 1:
+                    self.methods.pop(k_)
         defs_ = {}
         for n_ in ast.walk(tree):
             if isinstance(n_, ast.FunctionDef):
